@@ -30,9 +30,13 @@ type PropConfig struct {
 }
 
 type BoundedCheck struct {
-	Name  string `json:"name"`
-	Bound string `json:"bound"`
-	Cmd   string `json:"cmd"`
+	Name    string `json:"name"`
+	Bound   string `json:"bound"`
+	Harness string `json:"harness"` // replay harness id
+	Func    string `json:"func"`    // scenario selector understood by the harness
+	// filled in at run time
+	Evaluations int    `json:"evaluations"`
+	Violation   string `json:"violation,omitempty"`
 }
 
 type KnownFinding struct {
@@ -146,8 +150,19 @@ func cmdCheck(args []string) {
 	violations := 0
 	var knownHit []string
 	reported := map[string]bool{}
+	// a canary that fails in a function with another failed obligation is a consequence of assuming that obligation
+	// after asserting it: it is folded into that failure instead of being reported on its own
+	failedFuncs := map[string]bool{}
+	for _, o := range res.relevant {
+		if o.Status != "proved" && o.Kind != "canary" {
+			failedFuncs[o.Func] = true
+		}
+	}
 	for _, o := range res.relevant {
 		if o.Status == "proved" {
+			continue
+		}
+		if o.Kind == "canary" && failedFuncs[o.Func] {
 			continue
 		}
 		key := conjunctSuffix.ReplaceAllString(o.Name, "")
@@ -180,6 +195,30 @@ func cmdCheck(args []string) {
 			fmt.Printf("VIOLATION property=%s replay=%s\n", *prop, path)
 		} else {
 			fmt.Printf("VIOLATION property=%s replay=%s no-failing-input-found\n", *prop, path)
+		}
+	}
+	// bounded stand-ins (labelled bounded, never counted as proved): scenario sweeps of the replay harness on the real code
+	for i := range pc.Bounded {
+		b := &pc.Bounded[i]
+		h, ok := harnesses[b.Harness]
+		if !ok {
+			continue
+		}
+		req := map[string]interface{}{"obligation": "", "func": b.Func, "seed": seed, "budget": 300}
+		out, text, err := runHarness(h, req, "bounded-"+sanitize(b.Name))
+		if err != nil {
+			b.Violation = "harness error: " + err.Error() + " " + text
+			continue
+		}
+		if n, ok := out["tried"].(float64); ok {
+			b.Evaluations = int(n)
+		}
+		if f, _ := out["found"].(bool); f {
+			violations++
+			b.Violation = fmt.Sprint(out["violation"])
+			path := filepath.Join(replayDir, fmt.Sprintf("%s-bounded-%s.json", *prop, sanitize(b.Name)))
+			writeJSON(path, map[string]interface{}{"property": *prop, "obligation": "bounded:" + b.Name, "replay_result": out, "replay": "counterexample found on the real code (bounded sweep)"})
+			fmt.Printf("VIOLATION property=%s replay=%s\n", *prop, path)
 		}
 	}
 	wall := time.Since(start).Seconds()
